@@ -74,6 +74,8 @@ mod verif_kani_state {
         core::mem::forget(r);
     }
 
+    // Dropped after measurement: the [[a]] header variant (on_array_header: 1200 s, no verdict).
+
     // a dotted key `a.k = v` extends the span of the table it is written in (the current
     // table), not only that of the implicit sub-table it lands in
     #[kani::proof]
